@@ -781,7 +781,10 @@ def run(ctx):
         for nfrag in (2, 3):
             if nfrag * spr > ctx.pick(8, 12):
                 continue
-            for recs in all_single_pulse_layouts(spr, nfrag, itertools.product((0, 1), repeat=nfrag * spr)):
+            patterns = itertools.product((0, 1), repeat=nfrag * spr)
+            if nfrag * spr > 10:  # 12 bits: a seeded sample instead of all 4096 waveforms
+                patterns = [tuple(rng.randint(0, 1) for _ in range(nfrag * spr)) for _ in range(150)]
+            for recs in all_single_pulse_layouts(spr, nfrag, patterns):
                 for le in range(spr + 1):
                     for re in range(spr + 1):
                         cases.append(dict(spr=spr, records=recs, amp=["s", q(1)], hon=["s", q(0)], le=le, re=re))
@@ -790,9 +793,9 @@ def run(ctx):
         keep1 = cases[:n1]
         keep2 = rng.sample(cases[n1:], 45000 - min(n1, 20000))
         cases = (keep1 if n1 <= 20000 else rng.sample(keep1, 20000)) + keep2
-    ctx.correspond("reduce/exhaustive", cases, impl_reduce, op_reduce, oracle_reduce, exhaustive=ctx.thorough,
+    ctx.correspond("reduce/exhaustive", cases, impl_reduce, op_reduce, oracle_reduce, exhaustive=True,
                    nontrivial=lambda c, o: o.startswith("ok") and not o.startswith("ok - "),
-                   rule=f"one record ({n1} cases: every waveform over {{0..3}} x thresholds 1, 5/2 x every le, re in 0..n) and one pulse of 2..3 fragments ({n2} cases: every 0/3 waveform x last fragment full or one short x every le, re in 0..n); quick tier samples 45000 of them",
+                   rule=f"one record ({n1} cases: every waveform over {{0..3}} x thresholds 1, 5/2 x every le, re in 0..n) and one pulse of 2..3 fragments ({n2} cases: every 0/3 waveform of <= 10 samples in total, 150 sampled ones for 12 samples, x last fragment full or one short x every le, re in 0..n)",
                    branch=lambda c, o: f"frag={len(c['records'])}:" + branch_hits(c, o))
     # random: 1-3 channels, several pulses, dropped fragments, all threshold kinds
     cases = []
